@@ -1,0 +1,64 @@
+//go:build verif
+// +build verif
+
+package onet
+
+import "go.dedis.ch/onet/v3/network"
+
+// Accessors for the verification harness of property C06 (trees learnt from
+// peers); compiled only with the build tag "verif". Nothing here is called by
+// the code under test.
+
+// VerifC06LocalManager returns the in-memory network the servers of a local
+// test are connected to, so that the harness can attach a bare router as peer.
+func (l *LocalTest) VerifC06LocalManager() *network.LocalManager {
+	return l.ctx
+}
+
+// VerifC06Request marks a tree id as requested, which is what requestTree does
+// before it sends the request to the peer.
+func (o *Overlay) VerifC06Request(id TreeID) {
+	o.treeStorage.Register(id)
+}
+
+// VerifC06Unrequest is what requestTree does when the request cannot be sent.
+func (o *Overlay) VerifC06Unrequest(id TreeID) {
+	o.treeStorage.Unregister(id)
+}
+
+// VerifC06Expire removes the entry of a tree the way the cleaning routine does
+// when the grace period after the last instance is over.
+func (o *Overlay) VerifC06Expire(id TreeID) {
+	ts := o.treeStorage
+	ts.Lock()
+	ts.cancelDeletion(id)
+	delete(ts.trees, id)
+	ts.Unlock()
+}
+
+// VerifC06Store returns a copy of the tree store: a nil tree is an id that
+// has been requested and not received yet.
+func (o *Overlay) VerifC06Store() map[TreeID]*Tree {
+	ts := o.treeStorage
+	ts.Lock()
+	defer ts.Unlock()
+	m := make(map[TreeID]*Tree, len(ts.trees))
+	for id, t := range ts.trees {
+		m[id] = t
+	}
+	return m
+}
+
+// VerifC06Pending returns the tree ids of the parked tree descriptions per
+// roster id, in arrival order.
+func (o *Overlay) VerifC06Pending() map[RosterID][]TreeID {
+	o.pendingTreeLock.Lock()
+	defer o.pendingTreeLock.Unlock()
+	m := make(map[RosterID][]TreeID, len(o.pendingTreeMarshal))
+	for rid, sl := range o.pendingTreeMarshal {
+		for _, tm := range sl {
+			m[rid] = append(m[rid], tm.TreeID)
+		}
+	}
+	return m
+}
